@@ -976,3 +976,196 @@ Proof.
   cbv zeta. split; [vm_compute; reflexivity|]. split; [repeat split; intros; try reflexivity; discriminate|].
   eexists. split; [vm_compute; reflexivity|]. split; vm_compute; reflexivity.
 Qed.
+
+(* ================================================================== HMAC / key-store insertion (Mbi_ExportMixinHmacKeyStoreFinalize) *)
+Lemma hmac_off_eq : HMAC_OFF = 64%nat. Proof. reflexivity. Qed.
+Definition hmac_bytes (x : mbi) (hm : list N) : list N := hm ++ match m_ks x with Some b => b | None => [] end.
+Lemma flat_app (a b : image) : flat (a ++ b) = flat a ++ flat b.
+Proof. apply concat_app. Qed.
+Lemma flat_hmac_block x hm : flat (hmac_block x hm) = hmac_bytes x hm.
+Proof. unfold hmac_block, hmac_bytes, flat. destruct (m_ks x); simpl; now rewrite ?app_nil_r. Qed.
+
+Lemma hmac_split_after x hm im off : (64 < off)%nat -> hmac_insert_split x hm im off = im.
+Proof.
+  revert off; induction im as [|s t IH]; intros off H; [reflexivity|]. cbn [hmac_insert_split].
+  rewrite hmac_off_eq. replace (Nat.leb off 64) with false by (symmetry; apply Nat.leb_gt; lia). cbn [andb].
+  rewrite IH by lia. reflexivity.
+Qed.
+Lemma hmac_between_done x hm im off : hmac_insert_between x hm im off true = im.
+Proof.
+  revert off; induction im as [|s t IH]; intros off; [reflexivity|]. cbn [hmac_insert_between].
+  rewrite andb_false_r. cbn [orb app]. now rewrite IH.
+Qed.
+Lemma offsets_after im off : (64 < off)%nat -> existsb (Nat.eqb HMAC_OFF) (offsets_from im off) = false.
+Proof.
+  revert off; induction im as [|s t IH]; intros off H; [reflexivity|]. cbn [offsets_from existsb].
+  rewrite hmac_off_eq. replace (Nat.eqb 64 off) with false by (symmetry; apply Nat.eqb_neq; lia).
+  rewrite <- hmac_off_eq. apply IH. lia.
+Qed.
+
+Lemma hmac_between_gen x hm im : forall off, (off <= 64)%nat ->
+  existsb (Nat.eqb HMAC_OFF) (offsets_from im off) = true ->
+  flat (hmac_insert_between x hm im off false) = firstn (64 - off) (flat im) ++ hmac_bytes x hm ++ skipn (64 - off) (flat im).
+Proof.
+  induction im as [|s t IH]; intros off Ho Ex; [discriminate|].
+  cbn [offsets_from existsb] in Ex. cbn [hmac_insert_between]. rewrite hmac_off_eq in *.
+  destruct (Nat.eqb off 64) eqn:E.
+  - apply Nat.eqb_eq in E. subst off. cbn [andb negb orb]. rewrite hmac_between_done.
+    rewrite Nat.sub_diag, firstn_O, skipn_O. rewrite flat_app, flat_hmac_block. cbn [app]. reflexivity.
+  - cbn [andb orb app]. apply Nat.eqb_neq in E.
+    replace (Nat.eqb 64 off) with false in Ex by (symmetry; apply Nat.eqb_neq; lia). cbn [orb] in Ex.
+    assert (Ls : (off + length s <= 64)%nat).
+    { destruct (Nat.le_gt_cases (off + length s) 64); [assumption|]. rewrite <- hmac_off_eq, offsets_after in Ex by lia. discriminate. }
+    rewrite !flat_cons. rewrite (IH (off + length s)%nat Ls) by (rewrite hmac_off_eq; exact Ex).
+    rewrite firstn_app, skipn_app. rewrite (firstn_all2 s) by lia. rewrite (skipn_all2 s) by lia.
+    replace (64 - (off + length s))%nat with (64 - off - length s)%nat by lia. cbn [app]. now rewrite <- app_assoc.
+Qed.
+
+Lemma hmac_split_gen x hm im : forall off, (off <= 64)%nat ->
+  existsb (Nat.eqb HMAC_OFF) (offsets_from im off) = false -> (64 < off + length (flat im))%nat ->
+  flat (hmac_insert_split x hm im off) = firstn (64 - off) (flat im) ++ hmac_bytes x hm ++ skipn (64 - off) (flat im).
+Proof.
+  induction im as [|s t IH]; intros off Ho Ex Lt; [cbn in Lt; lia|].
+  cbn [offsets_from existsb] in Ex. apply orb_false_iff in Ex as [E0 Ex]. rewrite hmac_off_eq in *. apply Nat.eqb_neq in E0.
+  cbn [hmac_insert_split]. rewrite hmac_off_eq. rewrite flat_cons in Lt. rewrite app_length in Lt.
+  destruct (Nat.ltb 64 (off + length s)) eqn:C.
+  - apply Nat.ltb_lt in C. replace (Nat.leb off 64) with true by (symmetry; apply Nat.leb_le; lia). cbn [andb].
+    rewrite hmac_split_after by lia. rewrite !flat_app, flat_hmac_block, !flat_cons. unfold flat at 1 2. cbn [concat]. rewrite !app_nil_r.
+    rewrite firstn_app, skipn_app. replace (64 - off - length s)%nat with 0%nat by lia. rewrite firstn_O, skipn_O, app_nil_r.
+    now rewrite <- !app_assoc.
+  - apply Nat.ltb_ge in C. rewrite andb_false_r. cbn [app].
+    assert (Ls : (off + length s < 64)%nat).
+    { destruct (Nat.eq_dec (off + length s) 64) as [Q|Q]; [|lia]. exfalso.
+      destruct t as [|s1 t1]; [cbn in Lt; lia|]. cbn [offsets_from existsb] in Ex. rewrite Q in Ex. cbn in Ex. discriminate. }
+    rewrite !flat_cons. rewrite (IH (off + length s)%nat) by (try lia; rewrite ?hmac_off_eq; assumption).
+    rewrite firstn_app, skipn_app. rewrite (firstn_all2 s) by lia. rewrite (skipn_all2 s) by lia.
+    replace (64 - (off + length s))%nat with (64 - off - length s)%nat by lia. cbn [app]. now rewrite <- app_assoc.
+Qed.
+
+Lemma get_flags_prefix (a b : list N) : (40 <= length a)%nat -> get_flags (a ++ b) = get_flags a.
+Proof. intros H. unfold get_flags. apply rd32_app. rewrite off_flags_eq. lia. Qed.
+
+(* finalize: rejected when application + relocation table have less than 64 bytes; otherwise HMAC (+ key store) is inserted
+   exactly once, at byte 64 of the image, whatever the sub-image structure; finalize(revert=True) removes exactly that *)
+Theorem hmac_finalize_inverse k c x st im dts :
+  provider c SFinalize = Some ExportMixinHmacKeyStoreFinalize ->
+  (app_len c x < 64 -> finalize k c x im dts = Err E_REJECT) /\
+  (64 <= app_len c x -> (64 < length (flat im))%nat ->
+   (exists kb kt, m_hmac x = Some (kb :: kt)) ->
+   (forall key data, length (k_hmac k key data) = 32%nat) ->
+   (forall b, m_ks x = Some b -> length b = 1424%nat) ->
+   flag_set (flat im) G_KEY_STORE_FLAG = (match m_ks x with Some _ => true | None => false end) ->
+   exists im', finalize k c x im dts = Ok im' /\
+     flat im' = firstn 64 (flat im) ++
+                hmac_bytes x (k_hmac k (match m_hmac x with Some key => key | None => [] end) (firstn 64 (flat im))) ++
+                skipn 64 (flat im) /\
+     finalize_revert c st (flat im') = Ok (flat im)).
+Proof.
+  intros P. split.
+  - intros Lt. unfold finalize. rewrite P. rewrite hmac_off_eq. replace (app_len c x <? Z.of_nat 64) with true by (symmetry; apply Z.ltb_lt; lia). reflexivity.
+  - intros Ge LF (kb & kt & Hk) Lh Lk Fl. unfold finalize. rewrite P, Hk.
+    rewrite hmac_off_eq. replace (app_len c x <? Z.of_nat 64) with false by (symmetry; apply Z.ltb_ge; lia).
+    set (F := flat im) in *. set (hm := k_hmac k (kb :: kt) (firstn 64 F)).
+    assert (SHAPE : exists im', (if existsb (Nat.eqb 64) (offsets_from im 0)
+                                 then Ok (hmac_insert_between x hm im 0 false) else Ok (hmac_insert_split x hm im 0)) = Ok im'
+                                /\ flat im' = firstn 64 F ++ hmac_bytes x hm ++ skipn 64 F).
+    { destruct (existsb (Nat.eqb 64) (offsets_from im 0)) eqn:Ex; eexists; (split; [reflexivity|]).
+      - rewrite (hmac_between_gen x hm im 0) by (try lia; rewrite hmac_off_eq; exact Ex). now rewrite Nat.sub_0_r.
+      - rewrite (hmac_split_gen x hm im 0) by (try lia; rewrite ?hmac_off_eq; assumption). now rewrite Nat.sub_0_r. }
+    destruct SHAPE as (im' & E & FL). rewrite <- hmac_off_eq at 1. exists im'. split; [exact E|]. split; [exact FL|].
+    unfold finalize_revert. rewrite P, FL.
+    assert (Lhm : length hm = 32%nat) by apply Lh.
+    assert (L64 : length (firstn 64 F) = 64%nat) by (rewrite firstn_length; lia).
+    assert (FS : flag_set (firstn 64 F ++ hmac_bytes x hm ++ skipn 64 F) G_KEY_STORE_FLAG = flag_set F G_KEY_STORE_FLAG).
+    { unfold flag_set. rewrite get_flags_prefix by lia. rewrite <- (firstn_skipn 64 F) at 2. now rewrite get_flags_prefix by lia. }
+    rewrite FS, Fl. rewrite hmac_off_eq. f_equal.
+    change HMAC_SZ with 32%nat. change KS_SZ with 1424%nat.
+    set (HB := hmac_bytes x hm).
+    assert (LHB : (64 + 32 + (if match m_ks x with Some _ => true | None => false end then 1424 else 0))%nat
+                  = length (firstn 64 F ++ HB)).
+    { rewrite app_length, L64. subst HB. unfold hmac_bytes. rewrite app_length, Lhm.
+      destruct (m_ks x) as [b|] eqn:Eb; [rewrite (Lk b eq_refl)|]; simpl length; lia. }
+    rewrite LHB. rewrite (app_assoc (firstn 64 F) HB (skipn 64 F)).
+    rewrite skipn_app, skipn_all, Nat.sub_diag, skipn_O. cbn [app].
+    rewrite <- app_assoc. rewrite firstn_app, L64, Nat.sub_diag, firstn_O, app_nil_r, firstn_firstn, Nat.min_id.
+    apply firstn_skipn.
+Qed.
+
+(* ------------------------------------------------------------------ certificate-block classes: disassemble_image cuts what collect_data appended *)
+Lemma sum_app_len x l :
+  nodupb l = true ->
+  sumz (map (mix_app_len x) l) =
+  (if hasl l MixinApp then zlen (m_app x) else 0) +
+  (if hasl l MixinRelocTable then (match m_table x with Some es => table_len es | None => 0 end) else 0).
+Proof.
+  intros Hn. induction l as [|m l IH]; [reflexivity|].
+  cbn [nodupb] in Hn. apply andb_true_iff in Hn as [Hn1 Hn2]. apply negb_true_iff in Hn1.
+  specialize (IH Hn2). cbn [map sumz fold_right]. fold (sumz (map (mix_app_len x) l)). rewrite IH.
+  unfold hasl in *. cbn [existsb].
+  destruct m; cbn [mix_app_len mixin_eqb mixin_id Z.eqb orb Pos.eqb]; rewrite ?Hn1; cbn [orb];
+    repeat match goal with |- context [if ?b then _ else _] => destruct b end; lia.
+Qed.
+
+Lemma app_len_no_table c x :
+  nodupb (c_mixins c) = true -> has c MixinApp = true -> has c MixinRelocTable = false -> app_len c x = zlen (m_app x).
+Proof.
+  intros ND HA HR. unfold app_len. rewrite sum_app_len by assumption. unfold has in *. unfold hasl. rewrite HA, HR. lia.
+Qed.
+
+Lemma no_reloc_provider l : existsb (mixin_eqb MixinRelocTable) l = false -> provider_in l SDisassemblyAppData = None.
+Proof.
+  induction l as [|m l IH]; [reflexivity|]. cbn [existsb]. intros H. apply orb_false_iff in H as [H1 H2].
+  cbn [provider_in]. destruct m; try (cbn [definer]; apply IH; assumption). discriminate H1.
+Qed.
+Lemma no_reloc_attr l : existsb (mixin_eqb MixinRelocTable) l = false -> existsb (gives AAppTable) l = false.
+Proof.
+  induction l as [|m l IH]; [reflexivity|]. cbn [existsb]. intros H. apply orb_false_iff in H as [H1 H2].
+  rewrite (IH H2). destruct m; try reflexivity. discriminate H1.
+Qed.
+
+(* the certificate-block offset word written by collect_data is the length of the application, and
+   disassemble_image cuts there: what is left is the application (D20: a negative slice here returned a wrong payload) *)
+Theorem disassemble_cuts_collect_lemma c x tzsize st segs tail :
+  (provider c SCollect = Some ExportMixinAppTrustZoneCertBlock /\ provider c SDisassemble = Some ExportMixinAppTrustZoneCertBlock
+   \/ provider c SCollect = Some ExportMixinAppCertBlockManifest /\ provider c SDisassemble = Some ExportMixinAppCertBlockManifest
+      /\ m_cert st <> None) ->
+  nodupb (c_mixins c) = true -> has c MixinApp = true -> has c MixinRelocTable = false -> c_type c <> 0 ->
+  (56 <= length (m_app x))%nat -> (length (m_app x) mod 4 = 0)%nat ->
+  collect c x = Ok segs ->
+  disassemble c tzsize st (flat segs ++ tail) = Ok (set_app st (clean_ivt (m_app x))).
+Proof.
+  intros K ND HA HR T0 L L4 C.
+  pose proof (app_len_no_table c x ND HA HR) as AL.
+  assert (PR : provider c SDisassemblyAppData = None) by (apply no_reloc_provider; exact HR).
+  assert (NT : has_attr c AAppTable = false) by (rewrite has_attr_gives; apply no_reloc_attr; exact HR).
+  assert (SH : exists app' rest, segs = app' :: rest /\ length app' = length (m_app x) /\ rd32 OFF_CRC app' = zlen (m_app x)
+                                 /\ clean_ivt app' = clean_ivt (m_app x)).
+  { unfold collect in C. destruct K as [[K1 K2]|[K1 [K2 K3]]]; rewrite K1 in C.
+    - destruct (m_app x) as [|b t] eqn:Ea; [simpl in L; lia|]. destruct (m_cert x) as [[pre post sg|]|]; try discriminate C.
+      destruct (cert_export _ _) as [cb|]; [cbn [bind] in C|discriminate C].
+      destruct (update_ivt c x (b :: t) _ _) as [app'|] eqn:U; [cbn [bind] in C|discriminate C].
+      unfold reloc_segment in C. rewrite NT in C. cbn [bind app] in C. injection C as <-.
+      exists app'. eexists. split; [reflexivity|].
+      pose proof (update_ivt_length _ _ _ _ _ _ L U) as La. pose proof (ivt_words _ _ _ _ _ _ L U) as (_ & _ & W & _).
+      split; [exact La|]. split; [|eapply clean_update; eassumption].
+      rewrite W. unfold ivt_crc. destruct (Z.eqb_spec (c_type c) 0); [contradiction|]. rewrite AL. reflexivity.
+    - destruct (m_app x) as [|b t] eqn:Ea; [simpl in L; lia|]. destruct (m_cert x) as [cb|]; try discriminate C.
+      destruct (update_ivt c x (b :: t) _ _) as [app'|] eqn:U; [cbn [bind] in C|discriminate C].
+      destruct (cert_export cb 1) as [cbb|]; [cbn [bind] in C|discriminate C].
+      destruct (manifest_export c x 0) as [mf0|]; [cbn [bind] in C|discriminate C].
+      pose proof (update_ivt_length _ _ _ _ _ _ L U) as La. pose proof (ivt_words _ _ _ _ _ _ L U) as (_ & _ & W & _).
+      assert (Q : rd32 OFF_CRC app' = zlen (b :: t)).
+      { rewrite W. unfold ivt_crc. destruct (Z.eqb_spec (c_type c) 0); [contradiction|]. rewrite AL. reflexivity. }
+      destruct (has c MixinManifestCrc).
+      + destruct (manifest_export c x _) as [mf|]; [cbn [bind] in C|discriminate C]. injection C as <-.
+        exists app'. eexists. split; [reflexivity|]. split; [exact La|]. split; [exact Q|eapply clean_update; eassumption].
+      + injection C as <-. exists app'. eexists. split; [reflexivity|]. split; [exact La|]. split; [exact Q|eapply clean_update; eassumption]. }
+  destruct SH as (app' & rest & -> & La & W & CL).
+  assert (CUT : firstn (natz (rd32 OFF_CRC (flat (app' :: rest) ++ tail))) (flat (app' :: rest) ++ tail) = app').
+  { rewrite flat_cons, <- app_assoc. rewrite rd32_app by (rewrite off_crc_eq; lia). rewrite W. unfold natz, zlen. rewrite Nat2Z.id.
+    rewrite <- La. rewrite firstn_app, firstn_all, Nat.sub_diag, firstn_O. apply app_nil_r. }
+  unfold disassemble. destruct K as [[K1 K2]|[K1 [K2 K3]]]; rewrite K2.
+  - rewrite CUT. unfold reloc_cut. rewrite PR. cbn [bind fst snd]. rewrite CL, pad4_id by (rewrite clean_ivt_length; assumption). reflexivity.
+  - destruct (m_cert st) as [cb|]; [|contradiction]. rewrite CUT. unfold reloc_cut. rewrite PR. cbn [bind fst snd].
+    rewrite CL, pad4_id by (rewrite clean_ivt_length; assumption). reflexivity.
+Qed.
